@@ -13,6 +13,6 @@ T=ok
 (cd "$WT" && go test -vet=off -count=1 ./... ) >/dev/null 2>&1 || T=FAIL
 (cd "$WT/tests" && go test -vet=off -count=1 ./... ) >/dev/null 2>&1 || T=FAIL
 (cd "$WT/tests/helpers/other" && GOWORK=off GOFLAGS=-mod=mod go test -vet=off -count=1 ./... ) >/dev/null 2>&1 || T=FAIL
-sh "$D/demo.sh" "$CL" >/dev/null 2>&1; DC=$?
-sh "$D/demo.sh" "$WT" >/dev/null 2>&1; DP=$?
+bash "$D/demo.sh" "$CL" >/dev/null 2>&1; DC=$?
+bash "$D/demo.sh" "$WT" >/dev/null 2>&1; DP=$?
 echo "SEED $D: build=$B tests=$T demo_clean_exit=$DC demo_patched_exit=$DP"
